@@ -11,6 +11,7 @@ import (
 	"encoding/json"
 	"fmt"
 	"io"
+	"os"
 	"sort"
 	"strings"
 	"testing"
@@ -321,7 +322,9 @@ func vc06Mutations(b *vc06Base, t vc06Template) []vc06Mut {
 	out = append(out, vc06Mut{"@payload", "payload=right", func(s *vc06Spec, h map[string]any) { s.Payload, s.HasPayload = hp, true }})
 	out = append(out, vc06Mut{"@payload", "payload=wrong", func(s *vc06Spec, h map[string]any) { s.Payload, s.HasPayload = []byte("wrong bytes"), true }})
 	out = append(out, vc06Mut{"@payload", "payload=empty", func(s *vc06Spec, h map[string]any) { s.Payload, s.HasPayload = []byte{}, true }})
-	out = append(out, vc06Mut{"@payload", "payload=right+byte", func(s *vc06Spec, h map[string]any) { s.Payload, s.HasPayload = append(append([]byte{}, hp...), 0), true }})
+	out = append(out, vc06Mut{"@payload", "payload=right+byte", func(s *vc06Spec, h map[string]any) {
+		s.Payload, s.HasPayload = append(append([]byte{}, hp...), 0), true
+	}})
 	out = append(out, vc06Mut{"@payload", "payload=the-hash-hex", func(s *vc06Spec, h map[string]any) { s.Payload, s.HasPayload = []byte(t.PayloadSeg), true }})
 	// serialisation
 	for _, f := range []string{"compact-4-segments", "compact-4-segments-empty", "compact-2-segments", "compact-leading-space", "compact-trailing-newline",
@@ -387,7 +390,9 @@ type vc06Case struct {
 	Honest   bool
 }
 
-func vc06CloneHdr(h map[string]any) map[string]any { return enum.Clone(vc06Normalise(h)).(map[string]any) }
+func vc06CloneHdr(h map[string]any) map[string]any {
+	return enum.Clone(vc06Normalise(h)).(map[string]any)
+}
 
 // vc06Normalise turns typed values into plain decoded-JSON values so that enum.Clone deep-copies them.
 func vc06Normalise(h map[string]any) map[string]any {
@@ -476,6 +481,9 @@ func TestVerifC06Inputs(t *testing.T) {
 	r.Bound("input_cases", len(cases))
 	r.Bound("mutation_depth", map[bool]int{false: 1, true: 2}[r.Thorough()])
 	var rc vc06Case
+	if os.Getenv("VERIF_REPLAY") != "" && !r.ReplayCase(&rc) {
+		return // the replay file belongs to another part
+	}
 	if r.ReplayCase(&rc) {
 		// keys (and with them every reference) are fresh in every process: rebuild the case from its structural description
 		sel := []vc06Case{}
